@@ -8,6 +8,7 @@ EXTRA = {
            [(f'Props/C09/Between{k}.lean', 'Chess.Props.C09') for k in range(4)] + [(f'Props/C09/Line{k}.lean', 'Chess.Props.C09') for k in range(4)],
     'C08': [('Props/C08/All.lean', 'Chess.Props.C08')],
     'C04': [('Props/C04/Keys.lean', 'Chess.Props.C04')],
+    'C02': [('Props/C02/Basic.lean', 'Chess.Props.C02')],
 }
 def names(path):
     s = open(path, encoding='utf-8').read()
